@@ -38,6 +38,14 @@ def run(tier, seed, t0):
         jobs.append(Job("multi-large-t%d-bb%d-%d-%d" % (t, bb, ni, no), "drv_c08", "optim", "spqlios-fma",
                         ["--mode", "multi", "--t", t, "--basebit", bb, "--n_in", ni, "--n_out", no,
                          "--reps", 600 if thorough else 150, "--seed", seed], timeout=3600))
+    # keys that are elements of a key array (array allocator), neighbours filled before and after
+    for e, (t, bb, ni, no) in enumerate([(8, 2, 40, 24), (5, 3, 64, 17), (8, 2, 1, 1), (2, 8, 33, 5), (1, 1, 7, 3), (8, 2, 1024, 9)]):
+        for el in ((0, 1, 2) if e < 2 or thorough else (e % 2,)):
+            jobs.append(Job("multi-array-el%d-t%d-bb%d-%d-%d" % (el, t, bb, ni, no), "drv_c08", "optim", "spqlios-fma",
+                            ["--mode", "multi", "--t", t, "--basebit", bb, "--n_in", ni, "--n_out", no, "--arrayelement", el,
+                             "--reps", 400 if thorough else 100, "--seed", seed + el]))
+    jobs.append(Job("asan-multi-array", "drv_c08", "asan", "spqlios-fma",
+                    ["--mode", "multi", "--t", 4, "--basebit", 3, "--n_in", 9, "--n_out", 5, "--arrayelement", 1, "--reps", 20, "--seed", seed], timeout=1200))
     # debug (scalar lweSubTo) on a subset
     for (t, bb) in [(8, 2), (2, 15), (31, 1), (1, 1)]:
         for no in (1, 9):
